@@ -176,7 +176,10 @@ class AStarSearch(Plans):
                 continue
             else:
                 # We use `is` instead of `==` to ensure the nodes are the same object instances, not just equal.
-                assert best_in_queue_by_state[s] is node, 'Newly visited state should be stored as best node.'
+                if best_in_queue_by_state[s] is not node:
+                    # A cheaper node for this state is still queued (it can tie with this one when both
+                    # heuristic costs are infinite), so this node is superseded.
+                    continue
                 # Remove the reference to this node, now that it's been removed from the queue.
                 del best_in_queue_by_state[s]
 
